@@ -453,3 +453,36 @@ Theorem crossing_rejected_thm : forall n dom,
 Proof.
   intros n dom Hwf Hok Hc Hfl. destruct (cdc_sound_thm n dom Hwf Hok Hfl) as [_ H]. exact (H Hc).
 Qed.
+
+(* ------------------------------------------------------------------ *)
+(* sinks must be clocked                                                *)
+
+(* the hole: a base-rule node without own clock accepts a single input of ANY domain *)
+Lemma clockless_sink_unchecked : forall ps nd x,
+  uses_base_check (nkind nd) = true -> own_clock nd = None ->
+  check_valid ps nd [x; SConst] = true.
+Proof.
+  intros ps nd x Hb Hc. rewrite (check_valid_base _ _ _ Hb). unfold base_check. rewrite Hc.
+  destruct x; reflexivity.
+Qed.
+
+(* with every sink clocked, acceptance means: every input of every register, pin and memory port
+   (enable, write enable, address, write data, ...) is only reached by that node's own clock domain *)
+Theorem cdc_sound_sinks_thm : forall n dom,
+  wf n = true -> domains_ok n dom = true -> flagged n dom = [] -> sinks_clocked n = true ->
+  forall v nd i q s,
+    get_node n v = Some nd -> is_sink_kind (nkind nd) = true ->
+    nth_error (nins nd) i = Some (Some q) -> influences n s q ->
+    exists c, own_clock nd = Some c /\ same_dom (pin_source n) s (SrcClk c).
+Proof.
+  intros n dom Hwf Hok Hfl Hs v nd i q s Hg Hk Hq Hinf.
+  unfold sinks_clocked in Hs. rewrite forallb_forall in Hs.
+  pose proof (Hs nd (get_node_In _ _ _ Hg)) as H. unfold sink_clocked in H. rewrite Hk in H.
+  assert (Hi : has_input nd = true).
+  { unfold has_input. apply existsb_exists. exists (Some q). split; [eapply nth_error_In; eauto | reflexivity]. }
+  rewrite Hi in H. simpl in H.
+  destruct (own_clock nd) as [c|] eqn:Ec; [|discriminate].
+  exists c. split; auto.
+  eapply (clocked_node_own_domain n dom Hwf Hok Hfl v nd c i q s); eauto.
+  destruct (nkind nd); try reflexivity; discriminate.
+Qed.
